@@ -19,6 +19,9 @@ C['C20']=("Static analysis: release of an accepted reload on every CFG path of t
 C['C01']=("Static analysis: the decision table of the userspace matcher's scan loop is extracted by exhaustive constant propagation over its CFG (224 abstract inputs) and compared cell by cell with the first-match reference; the sentinel algebra, the OR/AND/outbound naming of lowered match sets (Apply and every emitter), agreement of the kernel and userspace representation at every appendRule site, exhaustiveness of registered functions and match-type cases, and the MAC/domain/process-name/fallback facets are decided from the typed AST.",
  "Trusted: go/types, go/cfg, go/constant folding in internal/fdt, the reference transition in internal/props/scan.go. Not decided: per-type predicates on concrete values, domain matcher (C11), port/MAC string parsing, end-to-end decisions.",
  "static analysis: finite decision table by constant-propagation dataflow over go/cfg (no execution, no solver) + typed-AST sibling/representation agreement + exhaustiveness")
+C['C07']=("Static analysis: decision tables of both DNS matcher scan loops (exhaustive constant propagation over their CFGs) equal the first-match reference; sentinel algebra and OR/AND name agreement; emitter naming discipline; reject-before-cache dominance and the answer-less reject reply; strictly growing, bounded re-ask depth on every recursive path; response action switch and the as-is default for unregistered answering upstreams.",
+ "Trusted: go/types, go/cfg, internal/fdt constant folding, the reference transition in internal/props/scan.go. Not decided: name matching on values (C11), IP containment (C12), upstream behaviour, singleflight.",
+ "static analysis: finite decision table by constant-propagation dataflow over go/cfg + dominance / must-pass-through rules + recursion-argument growth rule")
 def chk(pid):
     text,note,tech=C[pid]
     return {"property_id":pid,"quick_cmd":f"bin/daecheck -p {pid} -tier quick","thorough_cmd":f"bin/daecheck -p {pid} -tier thorough","evidence_file":f"/verif/evidence/{pid}.json",
